@@ -267,6 +267,9 @@ def validate(spec, trace, trace2=None):
         return json.load(open(cache))
     meta = trace + "." + spec + ".meta"
     t0 = time.time()
+    trace = sanitize(trace)
+    if trace2:
+        trace2 = sanitize(trace2)
     cmd = ["timeout", "900", "tlc", "-workers", "1", "-metadir", meta, "-cleanup", "-noGenerateSpecTE",
            "-config", spec + ".cfg", spec + ".tla"]
     r = subprocess.run(cmd, cwd=SPEC, env=dict(os.environ, TRACE=trace, TRACE2=trace2 or "", JAVA_TOOL_OPTIONS=JAVA_TRACE),
@@ -287,8 +290,42 @@ def validate(spec, trace, trace2=None):
     res = dict(spec=spec, trace=trace, accepted=accepted, states=states, fails=fails, strict=strict,
                rejected_at=int(rejected.group(1)) if rejected else None, wall_s=round(time.time() - t0, 2),
                tool_error=(not accepted and not rejected), tail=r.stdout[-1500:] if not accepted else "")
-    json.dump(res, open(cache, "w"))
+    if not res["tool_error"]:
+        json.dump(res, open(cache, "w"))
     return res
+
+
+META_OPS = ("Header", "Reset", "EndRun", "Skip", "Snap")
+
+
+def sanitize(path):
+    """A driver that dies of memory corruption can leave a garbled last line (or garbled field
+    names) behind: keep the well-formed prefix so that TLC can still judge it."""
+    clean = path + ".clean"
+    if os.path.exists(clean):
+        return clean
+    good = []
+    bad = 0
+    try:
+        for line in open(path, errors="replace"):
+            try:
+                e = json.loads(line)
+                ok = isinstance(e, dict) and isinstance(e.get("op"), str)
+                if ok and e["op"] not in META_OPS:
+                    ok = all(k in e for k in ("st", "res", "cost", "led")) and isinstance(e["res"], dict) and "t" in e["res"]
+            except Exception:
+                ok = False
+            if ok:
+                good.append(line if line.endswith("\n") else line + "\n")
+            else:
+                bad += 1
+                break      # nothing after a garbled line is trusted
+    except FileNotFoundError:
+        pass
+    if bad == 0:
+        return path
+    open(clean, "w").writelines(good)
+    return clean
 
 
 def trace_stats(path):
